@@ -4,7 +4,7 @@ import vplib
 
 PID = "C18"
 ENGINE = "conc"
-RULE = ("to_vec() of sources that emit a finite script (0-4 items, then complete / error / nothing) from another thread - through "
+RULE = ("[a clone of the future, polled once the first has resolved, must yield the same result] to_vec() of sources that emit a finite script (0-4 items, then complete / error / nothing) from another thread - through "
         "observe_on, subscribe_on, delay, interval+take, timer - awaited by a minimal parking block_on built on the facade's primitives, "
         "under random / PCT schedules and DFS for the smallest, with spurious condvar wake-ups on part of the runs; the result must be "
         "exactly the script (items in order, or the error), the run must end (no deadlock: no lost wake-up), a source that never "
@@ -127,6 +127,10 @@ def judge(cases, runs):
             key = sx.dumps(res)
             if key not in mset:
                 viol.append((ci, sd, "result %s differs from what the source emitted %s %s" % (key, case["items"], case["en"])))
+                continue
+            r2 = [r for r in ob["ev"] if r[3] == "result2"]
+            if r2 and sx.dumps(r2[0][5]) != key:
+                viol.append((ci, sd, "a second awaiter of the same to_vec state (a clone, polled after the first resolved) got %s, the first %s" % (sx.dumps(r2[0][5]), key)))
                 continue
             if not spurious and not case.get("repoll") and polls not in mpolls[key]:
                 unshown.append((ci, sd, "result %s after %d polls; the model allows %s" % (key, polls, sorted(mpolls[key]))))
